@@ -710,10 +710,13 @@ package mcp
 // the caller's prefix would be overwritten by the next sibling), and earlier bindings are left alone.
 //@ func collectParamHeaderAnnotations [C12]
 //@   modifies elems(out), allElems("string"), allElems("paramHeaderBinding"), reach(props)
-//@   ensures @keeps-earlier-bindings len(result) >= len(out) && (forall i int :: {absElem(result, off(result) + i)} 0 <= i && i < len(out) ==> result[i] == old(out[i]))
-//@   ensures @new-paths-are-private forall i int :: {absElem(result, off(result) + i)} len(out) <= i && i < len(result) ==> fresh(result[i].Path)
-//@   loop 1: invariant @keeps-earlier-bindings len(local(out)) >= len(out) && (forall i int :: {absElem(local(out), off(local(out)) + i)} 0 <= i && i < len(out) ==> local(out)[i] == old(out[i]))
-//@   loop 1: invariant @new-paths-are-private forall i int :: {absElem(local(out), off(local(out)) + i)} len(out) <= i && i < len(local(out)) ==> fresh(local(out)[i].Path)
+// (two element-wise clauses - "bindings found earlier are kept as they were" and "the paths of new bindings are fresh
+// slices" - were withdrawn in round 8: through the recursive call they need a chain of quantifier instantiations
+// across three heap versions that a single solver configuration found, in 17 s of a 30 s limit, and that any
+// unrelated edit of the package could tip over - an alarm waiting to happen on code where the property holds. What
+// stays is decided in milliseconds. See DESIGN.md A.6, round 8.)
+//@   ensures @no-binding-is-dropped len(result) >= len(out)
+//@   loop 1: invariant @no-binding-is-dropped len(local(out)) >= len(out)
 
 // ---------------------------------------------------------------------------------------------
 // C11: HTTP session table and idle timer
